@@ -541,6 +541,10 @@ func (h *Host) dialTCP(ctx context.Context, lip netip.Addr, remote netip.AddrPor
 	sc.si = w.register("tcp", dh, remote, local, l.si.Creator)
 	cc.name = fmt.Sprintf("c%d", cc.si.ID)
 	sc.name = fmt.Sprintf("c%d", sc.si.ID)
+	if w.MinFirstReadFor != nil {
+		cc.MinFirstRead = w.MinFirstReadFor(local, remote)
+		sc.MinFirstRead = w.MinFirstReadFor(remote, local)
+	}
 	l.q = append(l.q, sc)
 	s.Poke()
 	return cc, nil
